@@ -6,7 +6,15 @@
 (* durable state read back from the database (log state, contracts bucket   *)
 (* with stage and resolved flag, resolutions, commit set) and the durable   *)
 (* flags of the rest of the node must equal the model's.  Crash and Restart *)
-(* lines are the model's Crash and Restart.  At the End line the terminal   *)
+(* lines are the model's Crash and Restart.  A Sweep line (an input handed   *)
+(* to the sweeper) names the outpoint by its role - it must be the one the   *)
+(* resolver's persisted stage calls for - and says whether the input is of   *)
+(* the channel's type (taproot witness type + control block): SweepsSignable.*)
+(* A Watch line (a resolver registers for the spend of an outpoint) must     *)
+(* name an outpoint that Exists on the model's chain; for zero-fee channel   *)
+(* types the output of the PRE-SIGNED second-level tx ("pre2", "prein2")     *)
+(* never exists, only the one the re-signed tx created.  At the End line the *)
+(* terminal                                                                  *)
 (* outcome must be the reference outcome of the scenario (or nothing of the *)
 (* close was ever durable or visible): invariant Verdict in the strict      *)
 (* configuration; the batch configuration prints one C13VERDICT tuple per   *)
@@ -21,8 +29,9 @@ IsW(w) == Is("Write") /\ Trace[l].w = w
 B(x) == IF x THEN 1 ELSE 0
 
 TInit == Init /\ l = 1
-\* the recorded sweep input carries a control block iff the channel is a taproot channel
-SignableT == Trace[l].cb = B(CType = "taproot")
+\* the recorded sweep input is of the channel's type: a taproot witness type and a control block iff the channel is
+\* a taproot channel
+SignableT == Trace[l].cb = B(CType = "taproot") /\ Trace[l].tw = B(CType = "taproot")
 
 Reset ==
   /\ Is("Reset")
@@ -72,7 +81,7 @@ TNext ==
   \* it can be signed (taproot: control block present) is taken from the line and judged by SweepsSignable
   \/ Is("Sweep") /\ (\E r \in Rid : LaunchOp(r) = Trace[l].k /\ RLaunch(r, SignableT))
   \/ Is("Sweep") /\ (\E r \in Rid : ZfLocal(r) /\ Sweep2Op(r) = Trace[l].k /\ RSweep2(r, SignableT))
-  \/ Is("Sweep") /\ Trace[l].k = "anchor" /\ RAnchor(TRUE)
+  \/ Is("Sweep") /\ Trace[l].k = "anchor" /\ RAnchor(TRUE, Trace[l].tw = B(CType = "taproot"))
   \/ IsW("CommitState") /\ \E src \in Srcs : MCommit(src)
   \/ IsW("LogResolutions") /\ \E src \in Srcs : MLogRes(src)
   \/ IsW("InsertCommitSet") /\ \E src \in Srcs : MInsCS(src)
